@@ -30,7 +30,7 @@ This semantic property of the library is supposed to hold:
 TASK: make ONE small, realistic change to the library's non-test, non-js Go source (the kind of slip a maintainer could make in a refactor, an optimisation, or a bug fix elsewhere: a moved statement, a wrong condition, a lock released early, a reused buffer, a missing re-check, a boundary off by one, a forgotten case) that BREAKS this property, while
   1. the library still compiles,
   2. the whole existing test suite still passes (run it at least twice), and
-  3. the breakage needs something specific to manifest: a particular interleaving of goroutines, a fault or stall or cut of the transport at a particular point, a multi-step sequence of API calls, an unusual input or configuration, or two cooperating sites that each look fine alone. Changes that ordinary use would expose at once (every message corrupted, every Close failing) are not wanted.
+  3. the breakage needs something specific to manifest: a particular interleaving of goroutines, a fault or stall or cut of the transport at a particular point, a multi-step sequence of API calls, an unusual input or configuration, or two cooperating sites that each look fine alone. Changes that ordinary use would expose at once (every message corrupted, every Close failing) are not wanted. Prefer a breakage that depends on TIMING or FAULTS (which goroutine gets a lock first, a peer that stalls or disappears at a particular byte, a timer that fires at a particular moment, a write that blocks) over one that only depends on an unusual input value.
 Do not touch test files, do not add build tags, do not change files named verif_on.go / verif_off.go, keep the calls to simYield/simNote as they are (they are no-ops in a normal build).
 
 The following ideas have ALREADY been used for this property; yours must be a different mechanism in a different part of the code (not a variation of one of these):
